@@ -57,12 +57,24 @@ var (
 	collectorCert   glue.Leaf
 )
 
+var trustDir string
+
 var versions = map[string]uint16{"1.1": tls.VersionTLS11, "1.2": tls.VersionTLS12, "1.3": tls.VersionTLS13}
 
 func TestMain(m *testing.M) {
 	glue.SilenceKlog()
 	glue.LoadRegistry()
 	caGood, caOther = glue.NewCA("verif trusted CA"), glue.NewCA("verif other CA")
+	// the host's trust store holds the "other" CA (and nothing else): a certificate that chains to a
+	// root the machine trusts is still not one that chains to the configured CA. Go reads the store
+	// once, on first use, from these variables.
+	if dir, err := os.MkdirTemp("", "c18-trust"); err == nil {
+		trustDir = dir
+		os.WriteFile(dir+"/roots.pem", caOther.CertPEM, 0o600)
+		os.Mkdir(dir+"/empty", 0o700)
+		os.Setenv("SSL_CERT_FILE", dir+"/roots.pem")
+		os.Setenv("SSL_CERT_DIR", dir+"/empty")
+	}
 	lo := []net.IP{net.IPv4(127, 0, 0, 1), net.IPv6loopback}
 	past, future := time.Now().Add(-48*time.Hour), time.Now().Add(48*time.Hour)
 	serverCerts = map[string]glue.Leaf{
@@ -101,6 +113,9 @@ func TestMain(m *testing.M) {
 		"certificates (ECDSA P-256) minted in-process", "Go crypto/tls and pion/dtls as the harness-side peers", "the client-certificate dimensions do not apply to the exporter direction, nor to DTLS (the library documents that DTLS client authentication is unsupported; pion speaks DTLS 1.2 only)")
 	code := m.Run()
 	rec.Write()
+	if trustDir != "" {
+		os.RemoveAll(trustDir)
+	}
 	os.Exit(code)
 }
 
